@@ -128,6 +128,16 @@ Example C02_nonvacuous_final_order :
   /\ map (slot_of s') [3; 2; 1] = [1; 2; 3] /\ map (alive s') [3; 2; 1] = [true; false; true].
 Proof. vm_compute. repeat split. Qed.
 
+(** adding a member again has no effect (fix bee77c9; the audit's witness): add A, add B, add A,
+    insert(1, C): the list is A, C, B - no ghost slot, 3 members *)
+Example C02_readd_no_effect :
+  let h := [(0, OInsert BEnd 0); (0, OInsert BEnd 1); (0, OInsert BEnd 0); (0, OInsert (BIndex 1) 2)] in
+  let s' := run 20 50 (fun _ => false) ex_s0 h in
+  hist_ok 20 50 (fun _ => false) ex_s0 h
+  /\ map (slot_of s') [0; 2; 1] = ms_order (s_mp s') /\ length (ms_members (s_mp s')) = 3%nat
+  /\ step_sys 20 50 (fun _ => false) s' 1 (OInsert (BFromBack 0) 1) = s'.
+Proof. vm_compute. repeat split. Qed.
+
 Example C02_nonvacuous_merge :
   Merge [[(0, OInsert BEnd 0); (1, OTick 0)]; [(0, OInsert BEnd 1)]]
         [(0, OInsert BEnd 0); (0, OInsert BEnd 1); (1, OTick 0)].
@@ -140,11 +150,14 @@ Qed.
 
 (** ------------------------------------------------------------------------------------------
     The premise of [C02_interleaving] ("every public call is one atomic step", [AtomicExec]) tied to the
-    source: in the lock-footprint table that tools/locks_extract.py regenerates from /repo/src on
-    every run (gen/LockFootprints.v), every public method of ProgressBar / MultiProgress is a
-    SINGLE outermost critical section over the bar mutex / the MultiState lock - one bracket from
-    the mutation through the paint - except the calls listed in [Brackets.allowed_sections] with
-    the number of sections they have (adding a bar = two or three sections: C02_insert_sections_partial
+    source: in the STRUCTURED programs that tools/locks_extract.py regenerates from /repo/src on
+    every run (gen/LockFootprints.all_programs: branches, loops, early exits), on EVERY PATH (for
+    the ticker program: every path of one loop iteration) every public method of ProgressBar /
+    MultiProgress is a SINGLE outermost critical section over the bar mutex / the MultiState lock -
+    one bracket from the mutation through the paint ([Brackets.max_sections], an abstract
+    interpretation proved sound: BracketsProofs.max_sections_sound) - except the calls listed in
+    [Brackets.allowed_sections] with
+    the number of sections they have (adding a bar = three or four sections: C02_insert_sections_partial
     at the end of this file; dropping the last handle = the two model calls finish_using_style; drop;
     the ticker loop).  A change that splits a bracket (e.g. releasing the bar mutex in the middle of
     `remove`) breaks this obligation. *)
@@ -152,13 +165,17 @@ From IndModel Require Import Locks Brackets.
 From IndGen Require Import LockFootprints.
 From IndProofs Require Import BracketsProofs.
 From Coq Require Import String.
-Theorem C02_atomic_brackets_generated : forall name fp,
-  In (name, fp) all_footprints -> (sections fp <= allowed_sections name)%nat.
-Proof. exact generated_brackets. Qed.
+Theorem C02_atomic_brackets_generated : forall name p,
+  In (name, p) all_programs ->
+  forall tr, paths (match p with PLoop b => b | _ => p end) tr ->
+  (sections tr <= allowed_sections name)%nat.
+Proof. exact generated_brackets_paths. Qed.
 Print Assumptions C02_atomic_brackets_generated.
 
 Example C02_atomic_brackets_nonvacuous :
-  In ("MultiProgress::remove"%string, [CAcq CBar; CAcq CMulti; CRel CMulti; CRel CBar]) all_footprints
+  (exists p, pg_lookup "MultiProgress::remove"%string all_programs = Some p /\
+             max_sections p = Some 1%nat /\
+             paths p [CAcq CBar; CAcq CMulti; CRel CMulti; CRel CBar] /\ paths p [CAcq CBar; CRel CBar])
   /\ sections [CAcq CBar; CAcq CMulti; CRel CMulti; CRel CBar] = 1%nat
   /\ sections [CAcq CBar; CRel CBar; CAcq CMulti; CRel CMulti; CAcq CBar; CRel CBar] = 3%nat.
 Proof. exact generated_brackets_nonvacuous. Qed.
@@ -561,25 +578,28 @@ Example C02_interleaving_example :
 Proof. vm_compute. repeat split. Qed.
 
 (** ------------------------------------------------------------------------------------------
-    add / insert* are NOT one critical section (C02_atomic_brackets_generated allows them 2,
-    insert_before/after 3).  model/MultiInterleave.v (part 2) splits them into their sections:
-    [MRead] (reference index read under the reference bar's lock), [MAlloc] (slot allocation under
-    the MultiState lock: an EMPTY member enters the ordering - it renders nothing), [MAttach]
-    (set_draw_target under the new bar's lock); [sec_run] runs a history of sections in which
-    other threads' sections fall between them.  `_partial`: proved for the schedules [sched_ok]:
+    add / insert* are NOT one critical section (C02_atomic_brackets_generated allows them 3,
+    insert_before/after 4).  model/MultiInterleave.v (part 2) splits them into their sections:
+    [MRead] (reference index read under the reference bar's lock), [MCheck] (is the bar a member
+    already? under the bar's lock; fix bee77c9), [MAlloc] (slot allocation under the MultiState
+    lock: an EMPTY member enters the ordering - it renders nothing), [MAttach] (set_draw_target
+    under the new bar's lock); [sec_run] runs a history of sections in which other threads'
+    sections fall between them.  `_partial`: proved for the schedules [sched_ok]:
       (S1) between the allocation and the attach section of add/insert*(b) no other section goes
            through a handle of b;
       (S2) the slot insert_before/after read for the reference bar r is still r's slot when the
            allocation section uses it (no remove(r) in between);
-      (S3) the bar added is not a member (as in op_ok).
+      (S3) the answer of the membership check is still true at the allocation section.
     For these, the section history reaches the same system state and emits the same TermLike
     calls as the atomic history [atomize h] - every add/insert* as ONE step at its allocation
     section - so every theorem of this file applies to it ([retargets (pend_run ..)] = the bars
-    still between allocation and attach at the end: none, for a complete history).
-    Outside (S2) the real code misplaces the bar or panics with the MultiState lock held: finding
-    candidate, C02_insert_sections_stale_index_refuted.  Outside (S1): the other thread's call
+    still between allocation and attach at the end: none, for a complete history).  Adding a
+    member again is inside: check "member", nothing else happens, as in the atomic step.
+    Outside (S2) the real code misplaces the bar or panics with the MultiState lock held: open
+    finding, C02_insert_sections_stale_index_refuted.  Outside (S1)/(S3): the other thread's call
     reaches the bar's OLD draw target (hidden: nothing happens; the update is shown at the bar's
-    first draw after the attach); not covered by a theorem. *)
+    first draw after the attach), or two threads adding clones of one bar both allocate; not
+    covered by a theorem. *)
 Theorem C02_insert_sections_partial : forall (W H : N) (fails : N -> bool) (h : list (N * mstep))
     (s : sys) (lc : locals),
   sched_ok W H fails s lc [] h ->
